@@ -18,6 +18,7 @@ From GV Require Import Lib.Trace Model.Loop.
 Import ListNotations.
 Open Scope string_scope.
 Open Scope list_scope.
+Open Scope nat_scope.
 
 (* ================================================================== *)
 (* Part A: executions and races *)
@@ -118,11 +119,6 @@ End Exec.
 Arguments Acc {loc} t l k.
 Arguments Rel {loc} t s.
 Arguments Acq {loc} t s.
-Arguments Own {loc} t.
-Arguments Released {loc} r.
-Arguments Frozen {loc} r.
-Arguments Atom {loc} r.
-Arguments AtomOwned {loc} r t.
 
 (* ================================================================== *)
 (* Part B: footprint tables and the checker *)
@@ -168,8 +164,16 @@ Record writer := mkWr {
 
 Record cbsite := mkCb { cb_kind : string; cb_via : string; cb_role : role; cb_entry : string }.
 
-(* an accepted deviation from the discipline: row, location, kind *)
-Record exc := mkExc { x_fn : string; x_loc : string; x_kind : akind; x_why : string }.
+(* An accepted deviation from the discipline, justified by hand: the accesses of
+   kind x_kind to x_loc written in function x_via when run by a thread of role
+   x_role (None: any role).  "*" is a wildcard for x_via / x_loc.  x_finding marks deviations that
+   are genuine defects (known findings) rather than unreachable or ordered code. *)
+Record exc := mkExc { x_role : option role; x_via : string; x_loc : string; x_kind : akind; x_finding : bool; x_why : string }.
+
+Definition wild (pat s : string) : bool := String.eqb pat "*" || String.eqb pat s.
+
+Definition exc_match (x : exc) (r : role) (via loc : string) (k : akind) : bool :=
+  (match x_role x with None => true | Some r' => role_eqb r' r end) && wild (x_via x) via && wild (x_loc x) loc && akind_eqb (x_kind x) k.
 
 Inductive lclass :=
 | CImmutable                 (* written only before publication *)
@@ -181,12 +185,15 @@ Inductive lclass :=
 Definition writers_of (l : string) (ws : list writer) : list writer :=
   filter (fun w => String.eqb (w_loc w) l) ws.
 
-(* writers that matter after publication and inside the property's scope *)
-Definition live (ws : list writer) (l : string) : list writer :=
-  filter (fun w => negb (w_init w) && negb (role_eqb (w_role w) ROut)) (writers_of l ws).
+(* writers that matter after publication and inside the property's scope; writes
+   that are themselves listed as exceptions (unreachable paths) do not count *)
+Definition live (xs : list exc) (ws : list writer) (l : string) : list writer :=
+  filter (fun w => negb (w_init w) && negb (role_eqb (w_role w) ROut) &&
+                   negb (existsb (fun x => exc_match x (w_role w) (w_fn w) (w_loc w) (w_kind w)) xs))
+         (writers_of l ws).
 
-Definition class_of (ws : list writer) (l : string) : lclass :=
-  match live ws l with
+Definition class_of (xs : list exc) (ws : list writer) (l : string) : lclass :=
+  match live xs ws l with
   | [] => CImmutable
   | w :: rest =>
       let all_atomic := forallb (fun w => is_atomic (w_kind w)) (w :: rest) in
@@ -202,11 +209,11 @@ Definition has_guard (g : string) (v : bool) (gs : guards) : bool :=
    of the same struct, and every live writer of the location is dominated by
    `g = negb v`: for the objects on which the read happens the field is never
    written after publication. *)
-Definition guard_ok (ws : list writer) (a : access) : bool :=
+Definition guard_ok (xs : list exc) (ws : list writer) (a : access) : bool :=
   negb (is_write (a_kind a)) &&
   existsb (fun p =>
-    match class_of ws (fst p) with
-    | CImmutable => forallb (fun w => has_guard (fst p) (negb (snd p)) (w_guards w)) (live ws (a_loc a))
+    match class_of xs ws (fst p) with
+    | CImmutable => forallb (fun w => has_guard (fst p) (negb (snd p)) (w_guards w)) (live xs ws (a_loc a))
     | _ => false
     end) (a_guards a).
 
@@ -220,32 +227,29 @@ Definition class_ok (c : lclass) (r : role) (k : akind) : bool :=
   | CUnsafe => false
   end.
 
-Definition access_ok (ws : list writer) (r : role) (a : access) : bool :=
-  a_owned a || class_ok (class_of ws (a_loc a)) r (a_kind a) || guard_ok ws a.
+Definition access_ok (xs : list exc) (ws : list writer) (r : role) (a : access) : bool :=
+  a_owned a || class_ok (class_of xs ws (a_loc a)) r (a_kind a) || guard_ok xs ws a.
 
-Definition excepted (xs : list exc) (fn : string) (a : access) : bool :=
-  existsb (fun x => String.eqb (x_fn x) fn && String.eqb (x_loc x) (a_loc a) && akind_eqb (x_kind x) (a_kind a)) xs.
+Definition excepted (xs : list exc) (r : role) (a : access) : bool :=
+  existsb (fun x => exc_match x r (a_via a) (a_loc a) (a_kind a)) xs.
 
 Definition row_ok (ws : list writer) (xs : list exc) (rw : row) : bool :=
-  forallb (fun a => access_ok ws (r_role rw) a || excepted xs (r_fn rw) a) (r_acc rw).
+  forallb (fun a => access_ok xs ws (r_role rw) a || excepted xs (r_role rw) a) (r_acc rw).
 
 Definition race_free_table (ws : list writer) (xs : list exc) (t : list row) : bool :=
   forallb (row_ok ws xs) t.
 
-(* the strict form used by the theorems: no exceptions *)
-Definition race_free_strict (ws : list writer) (t : list row) : bool := race_free_table ws [] t.
-
-(* every exception is still needed by some access that fails without it *)
+(* every exception is still needed: it matches an access that fails without it *)
 Definition exceptions_used (ws : list writer) (xs : list exc) (t : list row) : bool :=
   forallb (fun x =>
-    existsb (fun rw => String.eqb (r_fn rw) (x_fn x) &&
-      existsb (fun a => String.eqb (x_loc x) (a_loc a) && akind_eqb (x_kind x) (a_kind a) &&
-                        negb (access_ok ws (r_role rw) a)) (r_acc rw)) t) xs.
+    existsb (fun rw =>
+      existsb (fun a => exc_match x (r_role rw) (a_via a) (a_loc a) (a_kind a) &&
+                        negb (access_ok xs ws (r_role rw) a)) (r_acc rw)) t) xs.
 
 (* diagnostics: the accesses a table fails on *)
 Definition bad_accesses (ws : list writer) (xs : list exc) (t : list row) : list (string * string * akind * string) :=
   flat_map (fun rw =>
-    flat_map (fun a => if access_ok ws (r_role rw) a || excepted xs (r_fn rw) a then []
+    flat_map (fun a => if access_ok xs ws (r_role rw) a || excepted xs (r_role rw) a then []
                        else [(r_fn rw, a_loc a, a_kind a, a_via a)]) (r_acc rw)) t.
 
 (* User callbacks the property speaks about must be invoked by loop threads. *)
@@ -261,3 +265,108 @@ Definition cb_exception (c : cbsite) : bool :=
 
 Definition confined_sites (cs : list cbsite) : bool :=
   forallb (fun c => negb (confined_kind (cb_kind c)) || role_eqb (cb_role c) RLoop || cb_exception c) cs.
+
+(* the table's non-owned writes are all listed among the writers (so that a
+   classification made from the writers speaks about the table) *)
+Definition guards_eqb (a b : guards) : bool :=
+  (List.length a =? List.length b) &&
+  forallb (fun p => has_guard (fst p) (snd p) b) a && forallb (fun p => has_guard (fst p) (snd p) a) b.
+
+Definition writers_cover (ws : list writer) (t : list row) : bool :=
+  forallb (fun rw =>
+    negb (role_eqb (r_role rw) ROut) &&
+    forallb (fun a =>
+      negb (is_write (a_kind a)) || a_owned a ||
+      existsb (fun w => String.eqb (w_loc w) (a_loc a) && akind_eqb (w_kind w) (a_kind a) && negb (w_init w) &&
+                        role_eqb (w_role w) (r_role rw) && String.eqb (w_fn w) (a_via a) &&
+                        guards_eqb (w_guards w) (a_guards a)) ws) (r_acc rw)) t.
+
+(* ================================================================== *)
+(* Part C: executions that conform to a table *)
+
+(* A concrete location: field f of object o. *)
+Definition cloc := (nat * string)%type.
+
+Definition cloc_eqb (a b : cloc) : bool := Nat.eqb (fst a) (fst b) && String.eqb (snd a) (snd b).
+
+(* What the table cannot know: which goroutine plays which role, who creates an
+   object, at which step it is published, which single thread of each role it
+   belongs to (the loop of a connection, ...), and the values of its immutable
+   boolean fields. *)
+Record layout := mkLayout {
+  trole : nat -> role;
+  creator : nat -> nat;
+  pub : nat -> option nat;          (* step at which the creator publishes the object *)
+  home : nat -> role -> nat;
+  gval : nat -> string -> bool;
+}.
+
+Section Conform.
+  Variable L : layout.
+  Variable xs : list exc.
+  Variable ws : list writer.
+  Variable t : list row.
+  Variable ex : list (event cloc).
+
+  Definition unpublished (o n : nat) : Prop := forall r, pub L o = Some r -> n < r.
+
+  (* Every access of the execution is an instance of a table access of a row of the
+     thread's role which the checker accepts without resorting to an exception, and:
+     - either the accessing thread is the creator and the object is not yet published
+       (construction), which is all an `owned` table access may be;
+     - or the access happens-after the publication of the object (a goroutine can
+       only use an object it obtained through a chain of synchronisation from the
+       one that published it), single-goroutine roles touch only the objects that
+       belong to them (a loop its own connections, ...), and the guards recorded for
+       the access hold of the object. *)
+  Definition access_conforms (n th o : nat) (f : string) (k : akind) : Prop :=
+    exists rw a,
+      In rw t /\ In a (r_acc rw) /\ r_role rw = trole L th /\ a_loc a = f /\ a_kind a = k /\
+      access_ok xs ws (trole L th) a = true /\ excepted xs (trole L th) a = false /\
+      ((th = creator L o /\ unpublished o n) \/
+       (a_owned a = false /\
+        (exists r, pub L o = Some r /\ hb cloc ex r n) /\
+        (single_threaded (trole L th) = true -> th = home L o (trole L th)) /\
+        (forall g v, In (g, v) (a_guards a) -> gval L o g = v))).
+
+  Definition conforms : Prop :=
+    (forall o r, pub L o = Some r -> exists s, at_ cloc ex r = Some (Rel (creator L o) s)) /\
+    (forall n th o f k, at_ cloc ex n = Some (Acc th (o, f) k) -> access_conforms n th o f k).
+End Conform.
+
+(* ================================================================== *)
+(* Part D: the engine as independent sequential loops *)
+
+(* The history of one event loop is what the one sequential run of Poller.Polling
+   produces from the loop's input (Model/Loop.v): a function of the input. *)
+Definition loop_history (i : list line) : list ev :=
+  match init_world i with
+  | Some w => rev (log (polling (S (List.length i)) w))
+  | None => []
+  end.
+
+Definition is_callback (e : ev) : bool :=
+  match e with
+  | EOut (n, _) => String.eqb n "cb" || String.eqb n "acb" || String.eqb n "exec"
+  | EIn _ => false
+  end.
+
+Fixpoint upd {A} (l : list A) (k : nat) (x : A) : list A :=
+  match l, k with
+  | [], _ => []
+  | _ :: r, O => x :: r
+  | y :: r, S k' => y :: upd r k' x
+  end.
+
+(* An execution of the engine: the histories of its loops merged in any order; each
+   event carries the index of the loop (= goroutine) that took it. *)
+Inductive merge : list (list ev) -> list (nat * ev) -> Prop :=
+| merge_done : forall hs, (forall h, In h hs -> h = []) -> merge hs []
+| merge_step : forall hs k e rest g,
+    nth_error hs k = Some (e :: rest) -> merge (upd hs k rest) g -> merge hs ((k, e) :: g).
+
+Definition engine_exec (ins : list (list line)) (g : list (nat * ev)) : Prop :=
+  merge (map loop_history ins) g.
+
+Definition proj (k : nat) (g : list (nat * ev)) : list ev :=
+  map snd (filter (fun p => Nat.eqb (fst p) k) g).
